@@ -407,3 +407,29 @@ pub proof fn lemma_eval_view_sound(m: CView, e: Expression, c: il::Constant)
     broadcast use {axiom_biguint_of};
     lemma_eval_view_val(m, e);
 }
+
+/// topping one more scalar of the list
+pub proof fn lemma_tops_step(m: CView, sq: Seq<il::Scalar>, n: int)
+    requires 0 <= n < sq.len(),
+    ensures tops_view(m, sq.take(n)).insert(sq[n], Constant::Top) == tops_view(m, sq.take(n + 1)),
+{
+    let t0 = sq.take(n);
+    let t1 = sq.take(n + 1);
+    assert forall|x: il::Scalar| t1.contains(x) <==> (t0.contains(x) || x == sq[n]) by {
+        if t0.contains(x) { let i = choose|i: int| 0 <= i < t0.len() && t0[i] == x; assert(t1[i] == x); }
+        if x == sq[n] { assert(t1[n] == x); }
+        if t1.contains(x) { let i = choose|i: int| 0 <= i < t1.len() && t1[i] == x; if i < n { assert(t0[i] == x); } }
+    }
+    assert forall|x: il::Scalar| t1.to_set().contains(x) <==> t0.to_set().insert(sq[n]).contains(x) by {
+        assert(t1.contains(x) <==> (t0.contains(x) || x == sq[n]));
+    }
+    assert(t1.to_set() =~= t0.to_set().insert(sq[n]));
+    assert(tops_view(m, t0).insert(sq[n], Constant::Top) =~= tops_view(m, t1));
+}
+
+pub proof fn lemma_tops_none(m: CView, sq: Seq<il::Scalar>)
+    ensures tops_view(m, sq.take(0)) == m,
+{
+    assert(sq.take(0).to_set() =~= Set::<il::Scalar>::empty());
+    assert(tops_view(m, sq.take(0)) =~= m);
+}
